@@ -264,121 +264,16 @@ pub fn build(spec: &DirSpec) -> Result<Built, BuildErr> {
 /// (indices into `spec.entries`); `Val::Ref(k)` always names an entry by its spec position.
 pub fn build_with_order(spec: &DirSpec, order: Option<&[usize]>) -> Result<Built, BuildErr> {
     let r = crate::catch(|| -> Result<Built, String> {
-        let s = &spec.schema;
-        let stores: Vec<jbk::creator::StoreHandle> = s
-            .stores
-            .iter()
-            .map(|k| match k {
-                StoreKind::Plain => jbk::creator::ValueStore::new_plain(None),
-                StoreKind::Indexed => jbk::creator::ValueStore::new_indexed(),
-            })
-            .collect();
-        let common = schema::CommonProperties::new(
-            s.common
-                .iter()
-                .enumerate()
-                .map(|(i, p)| make_prop(p, s.common_name(i), &stores))
-                .collect(),
-        );
-        let variants = s
-            .variants
-            .iter()
-            .enumerate()
-            .map(|(v, props)| {
-                (
-                    VN(v as u8),
-                    schema::VariantProperties::new(
-                        props
-                            .iter()
-                            .enumerate()
-                            .map(|(j, p)| make_prop(p, s.variant_name(v, j), &stores))
-                            .collect(),
-                    ),
-                )
-            })
-            .collect();
-        let sort = s
-            .sort
-            .as_ref()
-            .map(|k| k.iter().map(|i| s.common_name(*i)).collect::<Vec<_>>());
-        let schema: Schema = schema::Schema::new(common, variants, sort);
-        let mut store = Box::new(jbk::creator::EntryStore::new(schema, None));
-
-        let n = spec.entries.len();
-        let default_order: Vec<usize> = (0..n).collect();
-        let order = order.unwrap_or(&default_order);
-        // Vows for forward references, handles returned by add_entry for the rest.
-        let mut vows: Vec<Option<jbk::Vow<jbk::EntryIdx>>> = (0..n)
-            .map(|_| Some(jbk::Vow::new(jbk::EntryIdx::from(0))))
-            .collect();
-        let binds: Vec<jbk::Bound<jbk::EntryIdx>> =
-            vows.iter().map(|v| v.as_ref().unwrap().bind()).collect();
-        let mut returned: Vec<Option<jbk::Bound<jbk::EntryIdx>>> = (0..n).map(|_| None).collect();
-        for &k in order {
-            let e = &spec.entries[k];
-            let mut map: HashMap<PN, jbk::Value> = HashMap::new();
-            let ncommon = s.common.len();
-            for (i, v) in e.vals.iter().enumerate() {
-                let name = if i < ncommon {
-                    s.common_name(i)
-                } else {
-                    s.variant_name(e.variant.expect("variant values need a variant"), i - ncommon)
-                };
-                let val = match v {
-                    Val::U(x) => jbk::Value::Unsigned(*x),
-                    Val::S(x) => jbk::Value::Signed(*x),
-                    Val::UW(x) => jbk::Value::UnsignedWord((*x).into()),
-                    Val::SW(x) => jbk::Value::SignedWord((*x).into()),
-                    Val::C(p, c) => jbk::Value::Content(jbk::ContentAddress::new(
-                        jbk::PackId::from(*p),
-                        jbk::ContentIdx::from(*c),
-                    )),
-                    Val::A(a) => jbk::Value::Array(a.as_slice().into()),
-                    Val::Ref(t) => {
-                        let bound = match &returned[*t] {
-                            Some(b) => b.clone(),
-                            None => binds[*t].clone(),
-                        };
-                        jbk::Value::UnsignedWord(bound.into())
-                    }
-                };
-                map.insert(name, val);
-            }
-            let entry = jbk::creator::BasicEntry::new_from_schema_idx(
-                &store.schema,
-                vows[k].take().expect("each entry is added once"),
-                e.variant.map(|v| VN(v as u8)),
-                map,
-            );
-            returned[k] = Some(store.add_entry(entry));
-        }
-
         let mut creator = jbk::creator::DirectoryPackCreator::new(
             jbk::PackId::from(0),
             jbk::VendorId::from([1, 2, 3, 4]),
             Default::default(),
         );
-        for st in &stores {
-            creator.add_value_store(st.clone());
-        }
-        let store_id = creator.add_entry_store(store);
-        for ix in &spec.indexes {
-            creator.create_index(
-                &ix.name,
-                Default::default(),
-                0.into(),
-                store_id,
-                ix.count.into(),
-                jbk::EntryIdx::from(ix.offset).into(),
-            );
-        }
+        let returned = populate(spec, order, &mut creator);
         let mut out = std::io::Cursor::new(Vec::new());
         let finalized = creator.finalize().map_err(|e| format!("finalize: {e}"))?;
         finalized.write(&mut out).map_err(|e| format!("write: {e}"))?;
-        let bounds = returned
-            .iter()
-            .map(|b| b.as_ref().map(|b| b.get().into_u32()).unwrap_or(u32::MAX))
-            .collect();
+        let bounds = returned.iter().map(|b| b.get().into_u32()).collect();
         Ok(Built {
             bytes: out.into_inner(),
             bounds,
@@ -389,6 +284,123 @@ pub fn build_with_order(spec: &DirSpec, order: Option<&[usize]>) -> Result<Built
         Ok(Err(e)) => Err(BuildErr::Err(e)),
         Err(p) => Err(BuildErr::Panic(p)),
     }
+}
+
+/// Add the spec's value stores, entry store and indexes to a DirectoryPackCreator (used by the
+/// in-memory path above and by BasicCreator-based containers). Returns the handles `add_entry`
+/// returned, per spec entry.
+pub fn populate(
+    spec: &DirSpec,
+    order: Option<&[usize]>,
+    creator: &mut jbk::creator::DirectoryPackCreator,
+) -> Vec<jbk::Bound<jbk::EntryIdx>> {
+    let s = &spec.schema;
+    let stores: Vec<jbk::creator::StoreHandle> = s
+        .stores
+        .iter()
+        .map(|k| match k {
+            StoreKind::Plain => jbk::creator::ValueStore::new_plain(None),
+            StoreKind::Indexed => jbk::creator::ValueStore::new_indexed(),
+        })
+        .collect();
+    let common = schema::CommonProperties::new(
+        s.common
+            .iter()
+            .enumerate()
+            .map(|(i, p)| make_prop(p, s.common_name(i), &stores))
+            .collect(),
+    );
+    let variants = s
+        .variants
+        .iter()
+        .enumerate()
+        .map(|(v, props)| {
+            (
+                VN(v as u8),
+                schema::VariantProperties::new(
+                    props
+                        .iter()
+                        .enumerate()
+                        .map(|(j, p)| make_prop(p, s.variant_name(v, j), &stores))
+                        .collect(),
+                ),
+            )
+        })
+        .collect();
+    let sort = s
+        .sort
+        .as_ref()
+        .map(|k| k.iter().map(|i| s.common_name(*i)).collect::<Vec<_>>());
+    let schema: Schema = schema::Schema::new(common, variants, sort);
+    let mut store = Box::new(jbk::creator::EntryStore::new(schema, None));
+
+    let n = spec.entries.len();
+    let default_order: Vec<usize> = (0..n).collect();
+    let order = order.unwrap_or(&default_order);
+    // Vows for forward references, handles returned by add_entry for the rest.
+    let mut vows: Vec<Option<jbk::Vow<jbk::EntryIdx>>> = (0..n)
+        .map(|_| Some(jbk::Vow::new(jbk::EntryIdx::from(0))))
+        .collect();
+    let binds: Vec<jbk::Bound<jbk::EntryIdx>> =
+        vows.iter().map(|v| v.as_ref().unwrap().bind()).collect();
+    let mut returned: Vec<Option<jbk::Bound<jbk::EntryIdx>>> = (0..n).map(|_| None).collect();
+    for &k in order {
+        let e = &spec.entries[k];
+        let mut map: HashMap<PN, jbk::Value> = HashMap::new();
+        let ncommon = s.common.len();
+        for (i, v) in e.vals.iter().enumerate() {
+            let name = if i < ncommon {
+                s.common_name(i)
+            } else {
+                s.variant_name(e.variant.expect("variant values need a variant"), i - ncommon)
+            };
+            let val = match v {
+                Val::U(x) => jbk::Value::Unsigned(*x),
+                Val::S(x) => jbk::Value::Signed(*x),
+                Val::UW(x) => jbk::Value::UnsignedWord((*x).into()),
+                Val::SW(x) => jbk::Value::SignedWord((*x).into()),
+                Val::C(p, c) => jbk::Value::Content(jbk::ContentAddress::new(
+                    jbk::PackId::from(*p),
+                    jbk::ContentIdx::from(*c),
+                )),
+                Val::A(a) => jbk::Value::Array(a.as_slice().into()),
+                Val::Ref(t) => {
+                    let bound = match &returned[*t] {
+                        Some(b) => b.clone(),
+                        None => binds[*t].clone(),
+                    };
+                    jbk::Value::UnsignedWord(bound.into())
+                }
+            };
+            map.insert(name, val);
+        }
+        let entry = jbk::creator::BasicEntry::new_from_schema_idx(
+            &store.schema,
+            vows[k].take().expect("each entry is added once"),
+            e.variant.map(|v| VN(v as u8)),
+            map,
+        );
+        returned[k] = Some(store.add_entry(entry));
+    }
+    for st in &stores {
+        creator.add_value_store(st.clone());
+    }
+    let store_id = creator.add_entry_store(store);
+    for ix in &spec.indexes {
+        creator.create_index(
+            &ix.name,
+            Default::default(),
+            0.into(),
+            store_id,
+            ix.count.into(),
+            jbk::EntryIdx::from(ix.offset).into(),
+        );
+    }
+    returned
+        .into_iter()
+        .enumerate()
+        .map(|(k, b)| b.unwrap_or_else(|| binds[k].clone()))
+        .collect()
 }
 
 #[derive(Clone, Debug, PartialEq, Eq)]
